@@ -141,16 +141,16 @@ func (w *World) oracleOnFip(m *simkube.Mutation) {
 			}
 			switch {
 			case newF == nil:
-				w.fail("C04.live-ip-released", "live-ip-released",
+				w.fail("C04.live-ip-released", w.c04Key("live-ip-released", oldF.Key, 0),
 					"FloatingIP %s (owner %q uid %q) deleted by %s while live pod %s (uid %s, bound at step %d) holds it",
 					ip, oldF.Key, oldF.UID, m.By.Name, p.key(), p.UID, p.BoundStep)
 				return
 			case newF.Key != p.Key:
-				w.fail("C04.live-ip-rekeyed", "live-ip-rekeyed",
+				w.fail("C04.live-ip-rekeyed", w.c04Key("live-ip-rekeyed", p.Key, 1),
 					"FloatingIP %s re-keyed from %q to %q by %s while live pod %s (uid %s) holds it", ip, oldKey(oldF), newF.Key, m.By.Name, p.key(), p.UID)
 				return
 			case newF.UID != "" && newF.UID != p.UID:
-				w.fail("C04.live-ip-handed-on", "live-ip-handed-on",
+				w.fail("C04.live-ip-handed-on", w.c04Key("live-ip-handed-on", p.Key, 1),
 					"FloatingIP %s now records pod uid %q (by %s) while live pod %s (uid %s) holds it", ip, newF.UID, m.By.Name, p.key(), p.UID)
 				return
 			}
@@ -206,7 +206,7 @@ func (w *World) oracleOnCloudUnassign(node, ip string) {
 	if w.armed("C04") {
 		for _, p := range w.livePodsWithIP(ip) {
 			if w.inNewestConf(ip) {
-				w.fail("C04.live-ip-unassigned", "live-ip-unassigned",
+				w.fail("C04.live-ip-unassigned", w.c04Key("live-ip-unassigned", p.Key, 1),
 					"UnAssignIP(%s from %s) while live pod %s (uid %s) on node %s holds it", ip, node, p.key(), p.UID, p.Node)
 				return
 			}
@@ -555,4 +555,14 @@ func (w *World) oracleC08Failed(br *bindReport) {
 		return
 	}
 	w.S.Stat("probe.c08-failed-bind-rolled-back")
+}
+
+// c04Key builds the finding signature of a C04 violation: the circumstance "an API reply was lost earlier in the
+// run and the identity holds more than one IP" (an orphan of the lost reply) is part of the signature, so that a
+// violation without that circumstance is never mistaken for the recorded finding.
+func (w *World) c04Key(base, identity string, atLeast int) string {
+	if w.lostReplies > 0 && len(w.storeIPsOfKey(identity)) > atLeast {
+		return base + ":identity-held-second-ip-after-lost-reply"
+	}
+	return base
 }
